@@ -63,6 +63,8 @@ impl Ctx {
 
 #[derive(Clone, Debug)]
 pub struct Violation {
+    /// the worker shard that observed it (set by the parent when merging)
+    pub shard: Option<usize>,
     /// stable signature used to match known findings: "<what fails>" at the granularity of a
     /// call site / failing condition, never of a whole property
     pub sig: String,
@@ -108,6 +110,7 @@ impl Report {
         *n += 1;
         if (*n as usize) <= MAX_VIOLATIONS_PER_SIG {
             self.violations.push(Violation {
+                shard: None,
                 sig: sig.to_string(),
                 what,
                 case,
@@ -160,6 +163,7 @@ impl Report {
                 let have = self.violations.iter().filter(|y| y.sig == sig).count();
                 if have < MAX_VIOLATIONS_PER_SIG {
                     self.violations.push(Violation {
+                        shard: x["shard"].as_u64().map(|s| s as usize),
                         sig,
                         what: x["what"].as_str().unwrap_or("").to_string(),
                         case: x["case"].clone(),
@@ -291,7 +295,14 @@ pub fn run_workers(prop: &str, tier: Tier, seed: u64, nshards: usize, budget_s: 
                 let line = stdout.lines().rev().find(|l| l.starts_with('{'));
                 match (o.status.success(), line) {
                     (true, Some(l)) => match serde_json::from_str::<Value>(l) {
-                        Ok(v) => report.merge_json(&v),
+                        Ok(mut v) => {
+                            if let Some(a) = v["violations"].as_array_mut() {
+                                for x in a.iter_mut() {
+                                    x["shard"] = json!(shard);
+                                }
+                            }
+                            report.merge_json(&v)
+                        }
                         Err(e) => crashed.push((shard, format!("bad worker output: {}", e))),
                     },
                     _ => {
